@@ -163,6 +163,31 @@ def generator_rule(run, rule, ast):
                     t, (re.search(r"(8|16|32)", t).group(1) if re.search(r"(8|16|32)", t) else "8" if "char" in t else "16" if "short" in t else "32")), (f["file"], n["l"]))
     if nins:
         run.instance(rule, "generator::write_static_offsets: integers are printed at full width", (f["file"], f["line"]), ok=True)
+    # the specialisation is written for the method the offsets were read from: the name put after `static_offsets<` is the
+    # demangled type of that method, untransformed (a name with, say, the policy argument cut off designates another method)
+    names = [d for n in astq.walk(f["body"]) if n.get("k") == "DeclStmt" for d in n["decls"] if d.get("init") is not None and any(
+        x.get("k") == "CallExpr" and (x.get("callee") or "").endswith("core::demangle") for x in astq.walk(d["init"]))]
+    if len(names) != 1:
+        run.broken.append("generator::write_static_offsets: the demangled method name is not a single local (%d)" % len(names))
+    else:
+        nd = names[0]
+
+        def root_call(e):
+            e = astq.strip(e)
+            while e is not None and e.get("k") in ("CXXConstructExpr", "CXXBindTemporaryExpr", "MaterializeTemporaryExpr") and len(e.get("c") or []) == 1:
+                e = astq.strip(e["c"][0])
+            return e
+        r0 = root_call(nd["init"])
+        pure = r0 is not None and r0.get("k") == "CallExpr" and (r0.get("callee") or "").endswith("core::demangle") and any(x.get("k") == "MemberExpr" and x.get("member") == "method_type" for x in astq.walk(r0))
+        changed = [n for n in astq.walk(f["body"]) if ((n.get("k") == "BinaryOperator" and n.get("op") == "=") or (n.get("k") == "CXXOperatorCallExpr" and n.get("oop") in ("=", "+="))) and
+                   astq.strip(n["c"][0] if n.get("k") == "BinaryOperator" else n["c"][1]).get("k") == "DeclRefExpr" and astq.strip(n["c"][0] if n.get("k") == "BinaryOperator" else n["c"][1])["ref"].get("did") == nd["did"]]
+        changed += [n for n in astq.walk(f["body"]) if n.get("k") == "CXXMemberCallExpr" and not n.get("cconst") and astq.strip(n["c"][0]["c"][0] if n["c"][0].get("c") else n["c"][0]).get("k") == "DeclRefExpr" and
+                    astq.strip(n["c"][0]["c"][0])["ref"].get("did") == nd["did"] and re.search(r"::(erase|replace|resize|assign|append|insert|pop_back|clear)$", n.get("callee") or "")]
+        okn = pure and not changed
+        run.instance(rule, "generator::write_static_offsets: the specialisation is named by the demangled type of the method itself", (f["file"], nd.get("l", f["line"])), ok=okn)
+        if not okn:
+            run.violation(rule, "generator::write_static_offsets|method-name", "the name written after `static_offsets<` is not the untouched demangled type of the method (%s): the offsets are attached to another method" % (
+                "it is rewritten by `%s`" % astq.text(changed[0])[:70] if changed else "initialised from `%s`" % astq.text(r0)[:70]), (f["file"], (changed[0] if changed else nd).get("l", f["line"])))
     st = Emission()
     emit_walk(f["body"], st, {})
     if st.unclassified:
@@ -385,7 +410,33 @@ def codec_rule(run, rule, ast):
         encoder_layout_rule(run, rule, f)
 
 
+def stream_state_rule(run, rule, f):
+    """a function that switches the caller's stream to hexadecimal leaves it with showbase on (or switches back to decimal):
+    numbers written to the same stream afterwards - the static offsets - are then still valid C++ literals"""
+    manip = []
+    for n in astq.walk(f["body"]):
+        if n.get("k") == "CXXOperatorCallExpr" and n.get("oop") == "<<":
+            for x in astq.walk(n["c"][2] if len(n.get("c") or []) > 2 else n):
+                nm = (astq.refname(x) or "")
+                if nm in ("std::hex", "std::dec", "std::oct", "std::showbase", "std::noshowbase"):
+                    manip.append((x.get("l", n["l"]), nm.split("::")[1], n))
+    if not manip:
+        return
+    manip.sort(key=lambda t: t[0])
+    base, show = "dec", None
+    for l, m, _ in manip:
+        if m in ("hex", "dec", "oct"):
+            base = m
+        else:
+            show = (m == "showbase")
+    ok = base == "dec" or show is True
+    run.instance(rule, "%s: the stream is left decimal, or hexadecimal with showbase" % f["name"].split("yomm2::")[-1][:60], (f["file"], manip[-1][0]), ok=ok)
+    if not ok:
+        run.violation(rule, "generator::%s|stream-state" % f["name"].split("::")[-1].split("<")[0], "the function leaves the caller's stream in %s without showbase: static offsets written to it afterwards are printed as bare hexadecimal digits (10 reads `a`, 16 reads `10`)" % base, (f["file"], manip[-1][0]))
+
+
 def encoder_layout_rule(run, rule, f):
+    stream_state_rule(run, rule, f)
     """the encoder emits, per method, ALL its slots and then ALL its strides (the decoder block-copies the 2*arity-1 words to the
     start of slots_strides, whose layout is slots-then-strides): emissions are whole-range algorithms or element loops over one of
     the two vectors; a loop that emits a slot and a stride in the same iteration interleaves them (identical up to arity 2 only)."""
